@@ -27,12 +27,19 @@ func (m *Manager) connected() bool {
 	return m.state == clientConnStateConnected
 }
 
-func (m *Manager) connect(recursed bool) (err error) {
+func (m *Manager) connect(recursed bool, closeGen uint64) (err error) {
 	// recursed = Is this the first time we're running the connect method?
 	// In other words: are we recursing?
 	if !recursed {
 		m.connectMu.Lock()
 		defer m.connectMu.Unlock()
+
+		// `Open` and `Socket.Connect` start this method on a new goroutine. If `Close` was called
+		// since then, the user doesn't want this connection anymore: don't connect behind their back.
+		if m.closeGeneration() != closeGen {
+			m.debug.Log("Manager was closed after this open was requested. Not connecting")
+			return nil
+		}
 
 		m.skipReconnectMu.Lock()
 		m.skipReconnect = false
@@ -189,7 +196,7 @@ func (m *Manager) reconnect(recursed bool) {
 	m.skipReconnectMu.RUnlock()
 
 	m.debug.Log("Attempting to reconnect")
-	err := m.connect(true)
+	err := m.connect(true, 0)
 	if err != nil {
 		m.debug.Log("Reconnect failed", err)
 		m.stateMu.Lock()
